@@ -44,7 +44,7 @@ def _sets(ctx):
     thorough = ctx.tier == 'thorough'
     rnd = random.Random(ctx.seed * 7919 + (1 if thorough else 0))
     n = 40 if thorough else 6
-    msgs = 20000 if thorough else 1000          # target AM count of one job (all ranks together)
+    msgs = 20000 if thorough else 700          # target AM count of one job (all ranks together)
     sets = []
     for i in range(n):
         if i == 0:
@@ -52,10 +52,12 @@ def _sets(ctx):
         elif i == 1:
             s = dict(ranks=4, p=(0, 0, 0, 0), tags=5, maxlen=3584, osmax=300000, flavour='asan')      # defaults
         elif i == 2:
-            s = dict(ranks=2, p=(2, 1, 2, 1), tags=3, maxlen=60000, osmax=1048576, flavour='rel', big=True)
+            s = dict(ranks=2, p=(3, 2, 2, 1), tags=3, maxlen=60000, osmax=1048576, flavour='rel', big=True)     # tested window of 2 in a pool of 3
         else:
             posted = rnd.choice([1, 2, 3, 0])
             tested = rnd.choice([1, 2, 3, 0])
+            if i == 3:                          # always one set whose tested window holds several requests (default is pool/4 = 1)
+                posted, tested = rnd.choice([(3, 2), (3, 3), (0, 2), (0, 3)])
             if posted and tested > posted:
                 tested = posted                 # the engine caps it with a warning; keep the set meaningful
             dyn = rnd.choice([1, 2, 3, 0])
@@ -77,6 +79,8 @@ def _sets(ctx):
         s['w'] = rnd.choice([(70, 15, 15), (70, 15, 15), (40, 30, 30), (90, 5, 5), (60, 40, 0), (60, 0, 40)]) if i > 1 else (70, 15, 15)
         s['kprog'] = rnd.choice([20, 200])
         if s['mixed']:
+            # crossing gets need a request slot that cannot be taken by a receive (recorded finding onesided:get:crossing-gets-deadlock)
+            s['p'] = (s['p'][0], s['p'][1]) + rnd.choice([(2, 1), (3, 1), (3, 2), (0, 0), (0, 3), (0, 1)])
             if not (s['w'][1] and s['w'][2]):
                 s['w'] = (60, 20, 20)
             if thorough:
@@ -105,7 +109,8 @@ def _env(s):
 def _cmd(exe, s, extra=()):
     return [exe, '--seed', s['seed'], '--steps', s['steps'], '--tags', s['tags'], '--maxlen', s['maxlen'], '--os-max', s['osmax'],
             '--w-am', s['w'][0], '--w-put', s['w'][1], '--w-get', s['w'][2], '--burst', s['burst'], '--progress-between', s['between'],
-            '--kprog', s['kprog']] + (['--tag-offset', s['tag_offset']] if s.get('mixed') else ['--pair-safe']) + list(extra)
+            '--kprog', s['kprog']] + ([] if '--idle-rounds' in extra else ['--idle-rounds', 1500 if s['osmax'] >= (1 << 20) else 400]) + (
+               ['--tag-offset', s['tag_offset']] if s.get('mixed') else ['--pair-safe']) + list(extra)
 
 
 def _mpi_errors(ctx, r, what, feature=None):
@@ -117,7 +122,7 @@ def _mpi_errors(ctx, r, what, feature=None):
     return False
 
 
-def _one(ctx, exe, s, what, extra=(), feature=None, ranks=None, timeout=None, stall_s=90):
+def _one(ctx, exe, s, what, extra=(), feature=None, ranks=None, timeout=None, stall_s=180):
     cmd = [str(c) for c in _cmd(exe, s, extra)]
     env = _env(s)
     tmo = timeout or (3600 if ctx.tier == 'thorough' else 900)
@@ -131,6 +136,9 @@ def _one(ctx, exe, s, what, extra=(), feature=None, ranks=None, timeout=None, st
     r = runner()
     if _mpi_errors(ctx, r, what, feature):
         return r, 'violation'
+    if r.signal == 9 and not (r.stalled or r.timed_out) and not r.san and not r.of('violation'):
+        ctx.inconclusive_case('%s: killed from outside (SIGKILL, not by this driver)' % what)
+        return r, 'inconclusive'
     st = ctx.absorb(r, what, feature)
     if st == 'stalled':
         try:        # keep the stacks of a stall that may not repeat
@@ -177,14 +185,29 @@ def run(ctx):
     exes = {f: harness(ctx, f) for f in ('asan', 'rel')}
     sets = _sets(ctx)
 
+    # low-weight triggers of the recorded findings: deterministic 2-rank scenarios of a few seconds each, run beside the sweeps
+    base = dict(seed=ctx.seed, steps=0, tags=3, maxlen=1000, osmax=65536, w=(70, 15, 15), burst=12, between=300, kprog=100, p=(0, 0, 0, 0), ranks=2, flavour='asan')
+    scen = [dict(base, id=900, what='scenario: one put and one get in flight between the same two processes', extra=['--scenario', 'put-get-same-pair'], cov='scenario_put_get_same_pair_runs'),
+            dict(base, id=901, steps=20, what='scenario: tag registered on every rank after enable()', extra=['--late-tag', '--idle-rounds', '40'], cov='scenario_late_tag_runs'),
+            dict(base, id=902, p=(0, 0, 1, 1), what='scenario: two processes get from each other with dynamic_requests = dynamic_recv_requests = 1',
+                 extra=['--scenario', 'crossing-gets', '--idle-rounds', '40'], cov='scenario_crossing_gets_runs')]
+
     def job(s):
+        if 'extra' in s:
+            r, st = _one(ctx, exes['asan'], s, s['what'], extra=s['extra'])
+            return s, s['what'], r, st
         what = 'set %d: %d ranks posted/tested/dyn/dynrecv=%s maxlen=%d osmax=%d %s%s' % (s['id'], s['ranks'], '/'.join(str(x) if x else 'default' for x in s['p']),
                                                                                      s['maxlen'], s['osmax'], s['flavour'], ' put+get on the same pairs' if s.get('mixed') else '')
         r, st = _one(ctx, exes[s['flavour']], s, what, feature='disjoint-tags' if s.get('mixed') else None)
         return s, what, r, st
 
     # ranks busy-poll: keep the number of simultaneously polling processes well below the core count of the shared box
-    res = ctx.pmap(job, sets, jobs=3)
+    res = ctx.pmap(job, sets[:2] + scen + sets[2:], jobs=3)
+    for s, what, r, st in [x for x in res if 'extra' in x[0]]:
+        if r.summary():
+            ctx.note_case(s['cov'], False)
+            ctx.add_cov(s['cov'])
+    res = [x for x in res if 'extra' not in x[0]]
     pseen = {k: set() for k in PNAMES}
     for s, what, r, st in res:
         if st in ('stalled', 'inconclusive'):
@@ -219,21 +242,9 @@ def run(ctx):
                     'engine_dynamic_queue_episodes': [sm['dynq_send_obs'], sm['dynq_recv_obs']], 'traffic_hash': sm['traffic_hash']})
     ctx.cov['parameter_values_seen'] = {k: sorted(str(x) for x in v) for k, v in pseen.items()}
 
-    # ---- low-weight triggers of the recorded findings (deterministic scenarios, 2 ranks, a few seconds each) ----
-    base = dict(id=900, seed=ctx.seed, steps=0, tags=3, maxlen=1000, osmax=65536, w=(70, 15, 15), burst=12, between=300, kprog=100, p=(0, 0, 0, 0), ranks=2)
-    r, st = _one(ctx, exes['asan'], base, 'scenario: one put and one get in flight between the same two processes', extra=['--scenario', 'put-get-same-pair'], feature=None)
-    if r.summary():
-        ctx.note_case('scenario-put-get-same-pair', False)
-        ctx.add_cov('scenario_put_get_same_pair_runs')
-    late = dict(base, id=901, steps=20)
-    r, st = _one(ctx, exes['asan'], late, 'scenario: tag registered on every rank after enable()', extra=['--late-tag', '--idle-rounds', '40'])
-    if r.summary():
-        ctx.note_case('scenario-late-tag', False)
-        ctx.add_cov('scenario_late_tag_runs')
-
     # ---- informational probe (thorough only, never a verdict): rendezvous-size AM bursts with a pool of one ----
     if thorough:
-        probe = dict(base, id=950, steps=200, maxlen=16384, w=(100, 0, 0), p=(1, 1, 0, 0), ranks=3, burst=24)
+        probe = dict(base, id=950, steps=200, maxlen=16384, w=(100, 0, 0), p=(1, 1, 0, 0), ranks=3, burst=24, flavour='rel')
         pr = ctx.run([str(c) for c in _cmd(exes['rel'], probe)], env=_env(probe), timeout=600, stall_s=30, mpi=3, tag='c14-probe')
         ctx.cov['probe_rendezvous_size_am_bursts_default_eager_limit'] = ('stalled (blocking MPI_Send on every rank, pool exhausted)' if (pr.stalled or pr.timed_out)
                                                                           else 'completed' if pr.summary() else 'failed to run')
